@@ -61,9 +61,12 @@ impl VotingBuilder {
         }
 
         let voter_votes = self.votes.entry(voter.clone()).or_insert(VoterVotes {
-            script_witness: Some(ScriptWitnessType::PlutusScriptWitness(witness.clone())),
+            script_witness: None,
             votes: BTreeMap::new(),
         });
+        // like the other builders: the witness given last for a voter is the one that is used
+        voter_votes.script_witness =
+            Some(ScriptWitnessType::PlutusScriptWitness(witness.clone()));
 
         voter_votes
             .votes
@@ -87,11 +90,12 @@ impl VotingBuilder {
         }
 
         let voter_votes = self.votes.entry(voter.clone()).or_insert(VoterVotes {
-            script_witness: Some(ScriptWitnessType::NativeScriptWitness(
-                native_script_source.0.clone(),
-            )),
+            script_witness: None,
             votes: BTreeMap::new(),
         });
+        voter_votes.script_witness = Some(ScriptWitnessType::NativeScriptWitness(
+            native_script_source.0.clone(),
+        ));
 
         voter_votes
             .votes
